@@ -59,6 +59,8 @@ theorem Node.slotGet_slotPut_same {n n' : Node} {k : PKey} {c : Ref} (hp : n.slo
     simp [Node.slotGet, seqGet, hi, hj, hc]
   | leaf v => simp [Node.slotPut] at hp
   | null => simp [Node.slotPut] at hp
+  | nd _ _ _ => simp [Node.slotPut] at hp
+  | buf _ => simp [Node.slotPut] at hp
 
 /-- Keys that cannot alias another key of the same container: no negative sequence index. -/
 def PKey.NonNeg (k : PKey) : Prop := ∀ i, k.asInt = some i → 0 ≤ i
@@ -127,6 +129,8 @@ theorem Node.slotGet_slotPut_ne {n n' : Node} {k k' : PKey} {c : Ref} (hp : n.sl
       simp only [Node.slotGet, seqGet, hi', this]
   | leaf v => simp [Node.slotPut] at hp
   | null => simp [Node.slotPut] at hp
+  | nd _ _ _ => simp [Node.slotPut] at hp
+  | buf _ => simp [Node.slotPut] at hp
 
 end MlModel.Tree
 
@@ -303,6 +307,7 @@ not exist yet) is set recursively giving `c`, and the result `t'` is a fresh cel
 `k` replaced by `c`; afterwards only the copy cell differs from the heap the recursion returned. -/
 theorem setPath_step {strict : Bool} {h : Heap} {t : Ref} {k : PKey} {rest : Path} {v : Ref} {h' : Heap}
     {t' : Ref} {n : Node} (hk1 : k ≠ .self) (hk2 : k ≠ .skip) (hn : h[t]? = some n) (hnn : n ≠ .null)
+    (hnd : ∀ b o s, n ≠ .nd b o s)
     (hs : setPath strict false h t (k :: rest) v = (h', .ok t')) :
     ∃ hm child hc c n',
       Extends h hm ∧ h.size < hm.size ∧
@@ -316,6 +321,8 @@ theorem setPath_step {strict : Bool} {h : Heap} {t : Ref} {k : PKey} {rest : Pat
     fun h' c => setPath_extends strict h' c rest v
   cases n with
   | null => exact absurd rfl hnn
+  | nd b o s => exact absurd rfl (hnd b o s)
+  | buf xs => simp at hs
   | leaf x => simp at hs
   | tuple rs =>
     simp only [Bool.false_eq_true, ↓reduceIte, alloc] at hs
@@ -368,5 +375,61 @@ theorem setPath_step {strict : Bool} {h : Heap} {t : Ref} {k : PKey} {rest : Pat
       · intro r _ hne
         rw [h2eq, write_get_ne _ _ hne]
     · simp at hs
+
+end MlModel.Tree
+
+namespace MlModel.Tree
+
+theorem ndWrite_get_ne (h : Heap) {b r : Ref} (o : Nat) (ys : List Int) (hne : r ≠ b) :
+    (ndWrite h b o ys)[r]? = h[r]? := by
+  unfold ndWrite
+  split
+  · exact write_get_ne _ _ hne
+  · rfl
+
+/-- **One level of a successful copying `_set_by_path` on an ndarray**: the result is a *new* array object
+(cell `h.size + 1`) on a *new* buffer (cell `h.size`), of the same shape. -/
+theorem setPath_nd_result {strict : Bool} {h : Heap} {t : Ref} {k : PKey} {rest : Path} {v : Ref} {h' : Heap}
+    {t' : Ref} {b off : Nat} {shape : List Nat} (hk1 : k ≠ .self) (hk2 : k ≠ .skip)
+    (hn : h[t]? = some (.nd b off shape))
+    (hs : setPath strict false h t (k :: rest) v = (h', .ok t')) :
+    t' = h.size + 1 ∧ h.size + 1 < h'.size ∧ h'[t']? = some (.nd h.size 0 shape) := by
+  rw [setPath.eq_4 _ _ _ _ _ _ _ hk1 hk2, hn] at hs
+  simp only at hs
+  rw [setNd_unfold] at hs
+  have hpre : ndPre false h t b off shape = ((ndCopy h b off shape).1, h.size + 1, h.size, 0) := by
+    simp [ndPre, ndCopy_snd]
+  have hcell : (ndCopy h b off shape).1[h.size + 1]? = some (.nd h.size 0 shape) := by
+    rw [ndCopy_fst]
+    have := push_get_size (h.push (.buf (ndElems h b off shape))) (.nd h.size 0 shape)
+    simpa using this
+  have hsz : (ndCopy h b off shape).1.size = h.size + 2 := by rw [ndCopy_fst]; simp
+  split at hs
+  · simp at hs
+  · split at hs
+    · simp at hs
+    · split at hs
+      · simp at hs
+      · split at hs
+        · simp at hs
+        · rename_i n inner _ i _ _ _ j _
+          rw [hpre] at hs
+          simp only at hs
+          have hi := ndItem_extends (ndCopy h b off (n :: inner)).1 h.size (0 + j * prod inner) inner
+          have hr := setPath_extends strict (ndItem (ndCopy h b off (n :: inner)).1 h.size (0 + j * prod inner) inner).1
+            (ndItem (ndCopy h b off (n :: inner)).1 h.size (0 + j * prod inner) inner).2 rest v
+          split at hs
+          · simp at hs
+          · rename_i h3 c hRe
+            rw [hRe] at hr
+            have he := hi.trans hr
+            have hle : h.size + 2 ≤ h3.size := by have := he.1; simp only [hsz] at this; exact this
+            split at hs
+            · simp at hs
+            · simp only [Prod.mk.injEq, Except.ok.injEq] at hs
+              obtain ⟨rfl, rfl⟩ := hs
+              refine ⟨rfl, ?_, ?_⟩
+              · simp only [ndWrite_size]; omega
+              · rw [ndWrite_get_ne _ _ _ (by omega), he.2 _ (by omega), hcell]
 
 end MlModel.Tree
